@@ -1,9 +1,9 @@
 #!/bin/sh
 # runs seedrun.py for every delivered seed that has no result yet (3 in parallel)
 cd /verif
-for d in /tmp/seed-out/C*/[ab]; do
+for d in /tmp/seed-out/C*/[abcd]; do
   [ -f "$d/patch.diff" ] || continue
   pid=$(basename $(dirname $d)); var=$(basename $d)
   grep -q "^SEED $pid-$var:" /tmp/seedruns.log 2>/dev/null && continue
   echo "$pid $var"
-done | xargs -P 3 -L 1 sh -c 'tools/seedrun.py $0 $1 2>&1 | grep "^SEED" >> /tmp/seedruns.log'
+done | xargs -P 4 -L 1 sh -c 'tools/seedrun.py $0 $1 2>&1 | grep "^SEED" >> /tmp/seedruns.log'
